@@ -12,7 +12,7 @@ from ..probes import Item, SrcState, Plan, make_source
 from .C07 import TOOLS, TOOL_NAMES, CountIt, _uid, STOP
 
 ID = "C08"
-LEVEL = "exploration"
+LEVEL = "fault_enumeration"
 ANCHORS = ["asynctools.py", "_core.py"]
 RULE = ("random block programs inside `async with scoped_iter(underlying)`: sequences of {next on a handle, apply tool T "
         "(27 tools/aggregations that close their inputs) to a handle, take j items, then close / exhaust / abandon "
